@@ -345,6 +345,10 @@ static bool build_recipe(recipe_t *r, const char *spec)
 		r->block.header_size = lzma_block_header_size_decode(r->data.p[0]);
 		if (lzma_block_header_decode(&r->block, NULL, r->data.p) != LZMA_OK) return false;
 		r->hdr = r->block.header_size;
+		// lzma_block_buffer_encode() falls back to uncompressed LZMA2 chunks (and a different filter chain in the
+		// Block Header) when the data does not shrink: such a recipe would not be the chain the op line names
+		for (int i = 0; i <= c.n; ++i)
+			if (r->bfilters[i].id != c.f[i].id) return false;
 		return true;
 	}
 	if (!strcmp(t[0], "mlz") && n == 3) {
